@@ -392,6 +392,12 @@ class ProcTable:
         if pid in self.deny_kill:
             raise PermissionError(errno.EPERM, os.strerror(errno.EPERM))
         vk.events.append(("kill", pid, int(sig), p.inc))
+        # job control is visible in /proc: a stopped process says "T" until it is continued
+        if int(sig) == 19 and p.state not in ("Z", "X", "T"):
+            p.state_before_stop = p.state
+            p.state = "T"
+        elif int(sig) == 18 and p.state == "T":
+            p.state = getattr(p, "state_before_stop", "S")
         return None
 
     def sys_waitpid(self, vk, pid, flags):
